@@ -51,8 +51,8 @@ reg("acc_pad_pos", "dec", ["C04", "C05"], tier=T, cap=1200,
     bounds="PAD + 0..=3 pads at a symbolic position 0..=1554, optionally one pad corrupted by a symbolic delta", encodes=[DEC + "decode_ascii", DEC + "derandomize_253_state"])
 reg("acc_ascii_eci", "dec", ["C04"], tier=T, cap=1200,
     bounds="ASCII char, ECI codeword, one-codeword designator, two ASCII chars, all symbolic", encodes=[DEC + "decode_ascii", DEC + "read_eci"])
-reg("parts_macro05", "dec", ["C16", "C04", "C01"], cap=3600, mem_gb=16, tier=T, role="attempt", stubbing=True, bounds="decode_parts on [236, two arbitrary ASCII codewords 1..=128]: header + body + RS EOT; the five non-ASCII mode decoders stubbed out", encodes=[DEC + "decode_parts", DEC + "decode_ascii"])
-reg("parts_macro06_fnc1", "dec", ["C16", "C04", "C01"], cap=3600, mem_gb=16, tier=T, role="attempt", stubbing=True, bounds="decode_parts on [237, 2 ASCII codewords], [232, 1 ASCII codeword], [236] alone; same stubs", encodes=[DEC + "decode_parts", DEC + "decode_ascii"])
+reg("parts_macro05", "dec", ["C16", "C04", "C01"], cap=3600, mem_gb=28, tier=T, role="attempt", stubbing=True, bounds="decode_parts on [236, two arbitrary ASCII codewords 1..=128]: header + body + RS EOT; all six mode decoders stubbed (ASCII by a plain-character model)", encodes=[DEC + "decode_parts", DEC + "decode_ascii"])
+reg("parts_macro06_fnc1", "dec", ["C16", "C04", "C01"], cap=3600, mem_gb=28, tier=T, role="attempt", stubbing=True, bounds="decode_parts on [237, 2 ASCII codewords], [232, 1 ASCII codeword], [236] alone; same stubs", encodes=[DEC + "decode_parts", DEC + "decode_ascii"])
 reg("oracle_c40_rt", "dec", ["C04"], cap=300, role="oracle-validation",
     bounds="reference C40/Text encoder -> reference decoder, 2 symbolic chars", encodes=[])
 reg("oracle_edifact_rt", "dec", ["C04"], cap=300, role="oracle-validation",
